@@ -25,6 +25,7 @@ def run(check: Check, repo: Repo, tier: str) -> None:
     model = AstModel(repo)
     check.note(node_classes=len(model.classes), concrete=len(model.concrete()), kinds=len(model.kinds()))
     L.keys_complete(check, repo, model)
+    L.order_agree(check, repo, model, sides=("keys",), floor=25)
     n = L.pop_guard(check, repo)
     check.floor("POP-GUARD", 4, "zero-argument pops in visit()")
     L.sentinel_twins(check, repo)
